@@ -182,6 +182,33 @@ class PredEval:
                     self._gmap[k[1]] = v[1]
         return self._gmap
 
+    def union_members(self, name: str, _depth=0):
+        """Members of a module-level `Union[...]` type table as TypeArgs (nested tables flattened, None -> NoneType)."""
+        if _depth > 3 or name not in self.insp.assigns:
+            return None
+        tm = self.const_term(name)
+        if tm[0] != "sub" or tm[2][0] != "tuple":
+            return None
+        out = [TypeArg("types.NoneType")]
+        for x in tm[2][1]:
+            n = T.refname(x)
+            if n and n.startswith(INSP + "."):
+                inner = self.union_members(n[len(INSP) + 1 :], _depth + 1)
+                if inner is None:
+                    return None
+                out += list(inner)
+            elif n:
+                try:
+                    oracle.stdlib_class(n)
+                    out.append(TypeArg(n))
+                except Exception:
+                    return None
+            elif x == ("const", None):
+                continue
+            else:
+                return None
+        return tuple(out)
+
     def accepts(self, pred: tuple, arg: TypeArg, depth=0):
         if pred[0] == "lambda":
             env = {pred[1][0]: arg}
@@ -237,6 +264,11 @@ class PredEval:
             name = tm[1]
             if name.startswith(INSP + "."):
                 short = name[len(INSP) + 1 :]
+                if short in ("STDLIB_TYPES", "STDLIB_TYPES_TUPLE", "BUILTIN_TYPES", "BUILTIN_TYPES_TUPLE"):
+                    src = "STDLibtypeT" if short.startswith("STDLIB") else "BuiltIntypeT"
+                    ms = self.union_members(src)
+                    if ms is not None:
+                        return ms
                 if short in self.insp.assigns:
                     c = self.const_term(short)
                     return self.val(c, env, depth)
@@ -285,7 +317,7 @@ class PredEval:
                     return None
                 eq = a == b
                 if isinstance(a, TypeArg) and isinstance(b, TypeArg):
-                    eq = a.cls == b.cls and a.subscripted == b.subscripted
+                    eq = a.cls == b.cls and a.subscripted == b.subscripted and not a.flags and not b.flags
                 return eq if tm[1] in ("is", "==") else not eq
             if tm[1] in ("in", "notin"):
                 if a is None or not isinstance(b, tuple):
@@ -295,7 +327,7 @@ class PredEval:
                     if x is None:
                         continue
                     if isinstance(a, TypeArg) and isinstance(x, TypeArg):
-                        if a.cls == x.cls and not a.subscripted:
+                        if a.cls == x.cls and not a.subscripted and not a.flags:
                             hit = True
                     elif a == x:
                         hit = True
